@@ -7,12 +7,14 @@ population by the reference formulas, batch accounting from the simulator log.
 
 from functools import partial
 
+import math
+
 import numpy as np
 import scipy.stats as ss
 from hypothesis import strategies as st
 
 from .. import models
-from ..core import CaseResult, Part, Violation, must_not_raise, time_limit
+from ..core import CaseResult, Part, Violation, must_not_raise, open_signatures, time_limit
 from ..refmodels import weighted_quantile_ok
 from ..runner import Check
 
@@ -152,6 +154,10 @@ def run_case(case):
         n = 257 + case['seed'] % 60
         bs = max(bs, 40)
     kind, val = case['obj']
+    if kind == 'quantiles':
+        # with fewer than ~2 particles below the cut every round has to beat the best discrepancy seen so far and the number of
+        # simulations explodes geometrically with the number of rounds (elfi then works as specified, for hours): keep n * q >= 1.5
+        n = max(n, int(math.ceil(1.5 / min(val))))
     m = build(case)
     fin = None
     if kind == 'thresholds' or case['cont']:
@@ -166,10 +172,42 @@ def run_case(case):
         objkw = {'quantiles': list(val)}
     ctx = 'n=%d bs=%d objective=%r continuation=%r seed=%d priors=%r pnames=%r width=%d' % (n, bs, objkw, case['cont'], case['seed'], _kinds(case), case['pnames'], case['width'])
     models.reset()
+    smc = None
+    try:
+        return _run_and_judge(case, m, n, bs, kind, val, ths, objkw, pick, ctx)
+    except Violation as v:
+        # open finding D24: scipy's multivariate normal refuses covariances whose eigenvalues span more than ~10 orders of magnitude
+        # (its positive-definiteness test is relative to the largest eigenvalue), so the proposal density of a population whose
+        # parameters have spreads differing by > ~5 orders of magnitude raises although every variance is positive and finite
+        if v.signature == 'C07:raises:LinAlgError@utils.py:pdf':
+            sm = _LAST.get('smc')
+            try:
+                var = np.diag(np.asarray(sm._populations[-1].cov, dtype=float))
+                ill = bool(np.all(np.isfinite(var)) and np.all(var > 0) and var.max() / var.min() > 1e9)
+            except Exception:
+                ill = False
+            if ill and 'C07:proposal-density-refuses-ill-scaled-covariance' in open_signatures(P):
+                return CaseResult(['stopped-at-known-finding'], None,
+                                  [('C07:proposal-density-refuses-ill-scaled-covariance', v.message + ' [population variances %r]' % var.tolist())])
+        raise
+
+
+_LAST = {}
+
+
+def _run_and_judge(case, m, n, bs, kind, val, ths, objkw, pick, ctx):
+    import elfi
     with must_not_raise(P, 'SMC.sample; ' + ctx):
         smc = elfi.SMC(m['d'], batch_size=bs, seed=case['seed'])
-        with time_limit(300, 'C07:run-does-not-terminate', 'SMC.sample'):
-            res = smc.sample(n, bar=False, **objkw)
+        _LAST['smc'] = smc
+        try:
+            with time_limit(300, 'C07:run-does-not-terminate', 'SMC.sample'):
+                res = smc.sample(n, bar=False, **objkw)
+        except Violation as v:
+            if v.signature == 'C07:run-does-not-terminate' and int(smc.state.get('n_sim', 0)) >= 20000:
+                # still consuming batches at a healthy rate: a legitimately expensive schedule, not a hang - inconclusive
+                return CaseResult(['time-budget-exhausted-while-progressing'], None)
+            raise
         in_force = [None if t is None else float(t) for t in smc.objective['thresholds']]
         quant = None if kind == 'thresholds' else list(val)
         if case['cont']:
